@@ -41,8 +41,8 @@ var tables = map[string]struct {
 	strict bool // unknown identifiers of this package are an error
 	allow  map[string]bool
 }{
-	"sync": {shim: "vsync", idents: set("Mutex", "RWMutex", "WaitGroup", "Once", "Cond", "NewCond", "Map"),
-		strict: true, allow: set("Pool", "Locker")},
+	"sync": {shim: "vsync", idents: set("Mutex", "RWMutex", "WaitGroup", "Once", "Cond", "NewCond", "Map", "Pool"),
+		strict: true, allow: set("Locker")},
 	"sync/atomic": {shim: "vatomic", idents: set("AddInt32", "AddInt64", "AddUint32", "AddUint64", "AddUintptr",
 		"LoadInt32", "LoadInt64", "LoadUint32", "LoadUint64", "LoadUintptr", "LoadPointer",
 		"StoreInt32", "StoreInt64", "StoreUint32", "StoreUint64", "StoreUintptr", "StorePointer",
